@@ -290,7 +290,7 @@ def execute(desc):
                 if exc_name and not any(l.startswith(exc_name) or ("." + exc_name) in l.split(":")[0] for l in err_lines):
                     viols.append({"clause": "failure_not_reported", "sig": sig + ":exception_name",
                                   "detail": {"mode": mode, "expected_exception": exc_name, "stderr": err[-500:]}})
-            events.append([mode, tag, status, len(body), head.get("ARGV0", "")[-20:] if mode != "m" and mode != "file" else ""])
+            events.append([mode, tag, status, len(body), head.get("ARGV0", "")[-20:] if mode in ("c", "stdin") else ""])
 
         for mode in desc["order"]:
             if mode in ("file", "m"):
